@@ -998,6 +998,11 @@ def replay(ctx, body):
     rc1, rc2, l1, l2, extra, err = run_pair(cpp_exe, ml_exe, [cmd])
     print("command:", describe_cmd(cmd))
     print("implementation (exit %d):\n%s" % (rc1, "\n".join(l1 + extra)[:4000]))
+    if rc1 != 0 and not l2 and cmd.split(" ")[0] in ("POS", "STM", "UCM", "FEN", "UCI"):
+        # the implementation died before echoing the operation: give the model the operation line directly
+        t = cmd.split(" ", 1)
+        rc2, out2, _e = sh([ml_exe], input=t[0].lower() + (" " + t[1] if len(t) > 1 else "") + "\n", timeout=300)
+        l2 = [l for l in out2.split("\n") if l]
     print("model (exit %d):\n%s" % (rc2, "\n".join(l2)[:4000]))
     if err.strip():
         print("stderr:", err[-1500:])
